@@ -765,4 +765,496 @@ theorem lower_isSweep {ds : Nat} {op : AOp} {o : Op} (h : op.lower ds = some o) 
   cases op <;> simp only [AOp.lower] at h <;> (try split at h) <;> simp at h <;> subst h <;>
     simp [isSweep, aIsSweep] at hs ⊢
 
+/-- one API call keeps an entry: not Add/AddWithSpan/Upsert/Put/Remove of `k`, not Clear; a sweep must read `≤ timestamp + span`.
+    HasOrAdd of `k`, all queries and all calls on other keys are allowed, with any readings. -/
+theorem astep_keeps_entry (c : Core) (k : Bytes) (e : Entry) (a : AOp × Nat) (h : KeysNodup c.data)
+    (he : alookup k c.data = some e) (hno : atouches k a.1 = false)
+    (ht : aIsSweep a.1 = true → a.2 ≤ e.timestamp + e.span) : alookup k (astep c a).data = some e := by
+  rw [astep_lower]
+  split
+  · rename_i hc
+    rw [hc] at hno
+    simp [atouches] at hno
+  · split
+    · rename_i o ho
+      exact step_keeps_entry c.data k e (o, a.2) h he (lower_touches k ho hno) (fun hs => ht (lower_isSweep ho hs))
+    · exact he
+
+/-- the analogue of `retained` for the API of the three types (in particular the self-sweeping `timeCacher`) -/
+theorem api_retained (c : Core) (k : Bytes) (e : Entry) (ops : List (AOp × Nat)) (h : KeysNodup c.data)
+    (he : alookup k c.data = some e) (hno : ∀ o ∈ ops, atouches k o.1 = false)
+    (ht : ∀ o ∈ ops, aIsSweep o.1 = true → o.2 ≤ e.timestamp + e.span) :
+    alookup k (ops.foldl astep c).data = some e := by
+  induction ops generalizing c with
+  | nil => exact he
+  | cons o r ih =>
+    simp only [List.foldl_cons]
+    apply ih (astep c o) (astep_keysNodup c o h)
+    · exact astep_keeps_entry c k e o h he (hno o (List.mem_cons_self ..)) (ht o (List.mem_cons_self ..))
+    · intro o' ho'; exact hno o' (List.mem_cons_of_mem _ ho')
+    · intro o' ho'; exact ht o' (List.mem_cons_of_mem _ ho')
+
+theorem astep_stays_absent (c : Core) (k : Bytes) (a : AOp × Nat) (h : KeysNodup c.data)
+    (he : alookup k c.data = none) (hno : arevives k a.1 = false) : alookup k (astep c a).data = none := by
+  rw [astep_lower]
+  split
+  · rfl
+  · split
+    · rename_i o ho
+      exact step_stays_absent c.data k (o, a.2) h he (lower_revives k ho hno)
+    · exact he
+
+theorem arun_stays_absent (c : Core) (k : Bytes) (ops : List (AOp × Nat)) (h : KeysNodup c.data)
+    (he : alookup k c.data = none) (hno : ∀ o ∈ ops, arevives k o.1 = false) :
+    alookup k (ops.foldl astep c).data = none := by
+  induction ops generalizing c with
+  | nil => exact he
+  | cons o r ih =>
+    simp only [List.foldl_cons]
+    exact ih (astep c o) (astep_keysNodup c o h) (astep_stays_absent c k o h he (hno o (List.mem_cons_self ..)))
+      (fun o' ho' => hno o' (List.mem_cons_of_mem _ ho'))
+
+/-- generic "present until expiry" for API histories: whatever call `a` left the entry `e` for `k` … -/
+theorem api_after_set_retained (c : Core) (pre post : List (AOp × Nat)) (a : AOp × Nat) (k : Bytes) (e : Entry)
+    (h : KeysNodup c.data) (hset : alookup k (astep (pre.foldl astep c) a).data = some e)
+    (hno : ∀ p ∈ post, atouches k p.1 = false)
+    (ht : ∀ p ∈ post, aIsSweep p.1 = true → p.2 ≤ e.timestamp + e.span) :
+    alookup k ((pre ++ a :: post).foldl astep c).data = some e := by
+  rw [List.foldl_append, List.foldl_cons]
+  exact api_retained _ k e post (astep_keysNodup _ a (arun_keysNodup pre c h)) hset hno ht
+
+/-- … and generic "gone after an expiring sweep" -/
+theorem api_after_set_gone (c : Core) (pre mid rest : List (AOp × Nat)) (a : AOp × Nat) (ts : Nat) (k : Bytes) (e : Entry)
+    (h : KeysNodup c.data) (hset : alookup k (astep (pre.foldl astep c) a).data = some e)
+    (hno : ∀ p ∈ mid, atouches k p.1 = false)
+    (ht : ∀ p ∈ mid, aIsSweep p.1 = true → p.2 ≤ e.timestamp + e.span)
+    (hts : e.timestamp + e.span < ts)
+    (hrest : ∀ p ∈ rest, arevives k p.1 = false) :
+    alookup k ((pre ++ a :: (mid ++ (AOp.sweep, ts) :: rest)).foldl astep c).data = none := by
+  have hv := api_after_set_retained c pre mid a k e h hset hno ht
+  have hnd := arun_keysNodup (pre ++ a :: mid) c h
+  have e1 : pre ++ a :: (mid ++ (AOp.sweep, ts) :: rest) = (pre ++ a :: mid) ++ (AOp.sweep, ts) :: rest := by simp
+  rw [e1, List.foldl_append, List.foldl_cons]
+  have hdrop : alookup k (astep ((pre ++ a :: mid).foldl astep c) (AOp.sweep, ts)).data = none :=
+    (has_eq_false_iff _ k).mp (sweep_drops _ ts k e hnd hv hts)
+  exact arun_stays_absent _ k rest (astep_keysNodup _ _ hnd) hdrop hrest
+
+/-! ### what the setting calls of the three types leave behind -/
+
+theorem put_lookup (c : Core) (k v : Bytes) (now : Nat) (hk : k ≠ []) :
+    alookup k (c.put k v now).data = some ⟨now, c.defaultSpan, v⟩ := by
+  unfold Core.put
+  rw [if_neg hk]
+  exact add_lookup c.data k v c.defaultSpan now
+
+theorem addWithSpan_lookup (c : Core) (k : Bytes) (d now : Nat) (hk : k ≠ []) :
+    alookup k (c.addWithSpan k d now).data = some ⟨now, d, []⟩ := by
+  unfold Core.addWithSpan
+  rw [if_neg hk]
+  exact add_lookup c.data k [] d now
+
+theorem coreAdd_lookup (c : Core) (k : Bytes) (now : Nat) (hk : k ≠ []) :
+    alookup k (c.add k now).data = some ⟨now, c.defaultSpan, []⟩ := addWithSpan_lookup c k c.defaultSpan now hk
+
+theorem coreUpsert_lookup (c : Core) (k : Bytes) (d now : Nat) (hk : k ≠ []) :
+    alookup k (c.upsert k d now).data =
+      some (match alookup k c.data with | some e => ⟨now, max e.span d, e.value⟩ | none => ⟨now, d, []⟩) := by
+  unfold Core.upsert
+  rw [if_neg hk]
+  exact upsert_lookup c.data k [] d now
+
+/-- calls with the empty key change nothing (Go: `ErrEmptyKey`) -/
+theorem empty_key_noop (c : Core) (v : Bytes) (d now : Nat) :
+    c.add [] now = c ∧ c.addWithSpan [] d now = c ∧ c.upsert [] d now = c ∧ c.put [] v now = c ∧
+    c.hasOrAdd [] v now = (c, false, false) := by
+  simp [Core.add, Core.addWithSpan, Core.upsert, Core.put, Core.hasOrAdd]
+
+/-! ### Keys / Len / Has / Get agree -/
+
+theorem isSome_alookup_iff (k : Bytes) (l : TC) : (alookup k l).isSome = true ↔ k ∈ l.map (·.1) := by
+  induction l with
+  | nil => simp [alookup]
+  | cons a r ih =>
+    obtain ⟨k1, e1⟩ := a
+    simp only [alookup, List.map_cons, List.mem_cons]
+    split
+    · rename_i heq
+      have : k1 = k := by simpa using heq
+      simp [this]
+    · rename_i hne
+      have : ¬ k = k1 := by
+        intro hc; apply hne; simp [hc]
+      simp [this, ih]
+
+theorem mem_keys_iff_has (c : Core) (k : Bytes) : k ∈ c.keys ↔ c.has k = true :=
+  (isSome_alookup_iff k c.data).symm
+
+theorem keys_length (c : Core) : c.keys.length = c.len := by simp [Core.keys, Core.len]
+
+theorem keys_nodup (c : Core) (h : KeysNodup c.data) : c.keys.Nodup := h
+
+theorem get_isSome_iff_has (c : Core) (k : Bytes) : (c.get k).isSome = c.has k := by
+  unfold Core.get Core.has TimeCache.has
+  cases alookup k c.data <;> rfl
+
+theorem hasOrAdd_present (c : Core) (k v : Bytes) (now : Nat) (e : Entry) (hk : k ≠ []) (he : alookup k c.data = some e) :
+    c.hasOrAdd k v now = (c, true, false) := by
+  unfold Core.hasOrAdd
+  rw [if_neg hk]
+  obtain ⟨f1, f2, _⟩ := TimeCache.hasOrAdd_flags c.data k v c.defaultSpan now
+  have hh : has c.data k = true := (has_eq_true_iff _ k).mpr ⟨e, he⟩
+  rw [f1, f2, hoa_present c.data k v c.defaultSpan now e he, hh]
+  rfl
+
+theorem hasOrAdd_absent (c : Core) (k v : Bytes) (now : Nat) (hk : k ≠ []) (he : alookup k c.data = none) :
+    c.hasOrAdd k v now = (c.put k v now, false, true) := by
+  unfold Core.hasOrAdd Core.put
+  rw [if_neg hk, if_neg hk]
+  obtain ⟨f1, f2, _⟩ := TimeCache.hasOrAdd_flags c.data k v c.defaultSpan now
+  have hh : has c.data k = false := (has_eq_false_iff _ k).mpr he
+  rw [f1, f2, hoa_absent c.data k v c.defaultSpan now he, hh]
+  rfl
+
+/-! ### the self-sweeping `timeCacher` -/
+
+/-- C18 for `timeCacher`: after `Put(k, v)` that read the clock at `t0`, as long as no later call is a Put/Remove of `k` or Clear
+    (HasOrAdd of `k`, Get/Peek/Has/Keys/Len, calls on other keys: all allowed) and every background sweep so far has read a time
+    `≤ t0 + defaultSpan`:  Get and Peek return `v` — the value of the LATEST Put —, Has is true, `k` is listed by Keys,
+    Len is positive and HasOrAdd answers `(has, added) = (true, false)` without changing anything. -/
+theorem cacher_retained (c : Core) (pre post : List (AOp × Nat)) (k v : Bytes) (t0 : Nat) (hk : k ≠ [])
+    (h : KeysNodup c.data)
+    (hno : ∀ p ∈ post, atouches k p.1 = false)
+    (ht : ∀ p ∈ post, aIsSweep p.1 = true → p.2 ≤ t0 + c.defaultSpan) :
+    let c' := (pre ++ (.put k v, t0) :: post).foldl astep c
+    c'.get k = some v ∧ c'.peek k = some v ∧ c'.has k = true ∧ k ∈ c'.keys ∧ 0 < c'.len ∧
+      (∀ v' now, c'.hasOrAdd k v' now = (c', true, false)) := by
+  intro c'
+  have hset : alookup k (astep (pre.foldl astep c) (.put k v, t0)).data = some ⟨t0, c.defaultSpan, v⟩ := by
+    show alookup k ((pre.foldl astep c).put k v t0).data = _
+    rw [put_lookup _ k v t0 hk, arun_defaultSpan]
+  have hl : alookup k c'.data = some ⟨t0, c.defaultSpan, v⟩ :=
+    api_after_set_retained c pre post (.put k v, t0) k _ h hset hno ht
+  have hhas : c'.has k = true := (has_eq_true_iff _ k).mpr ⟨_, hl⟩
+  have hmem : k ∈ c'.keys := (mem_keys_iff_has c' k).mpr hhas
+  refine ⟨?_, ?_, hhas, hmem, ?_, ?_⟩
+  · unfold Core.get; rw [hl]; rfl
+  · unfold Core.peek Core.get; rw [hl]; rfl
+  · rw [← keys_length]; exact List.length_pos_of_mem hmem
+  · intro v' now; exact hasOrAdd_present c' k v' now _ hk hl
+
+/-- … and once a background sweep reads a time `> t0 + defaultSpan` the key is gone, and stays gone until the next
+    Put/HasOrAdd (or Add/Upsert) of `k` -/
+theorem cacher_gone_after_expiry_sweep (c : Core) (pre mid rest : List (AOp × Nat)) (k v : Bytes) (t0 ts : Nat) (hk : k ≠ [])
+    (h : KeysNodup c.data)
+    (hno : ∀ p ∈ mid, atouches k p.1 = false)
+    (ht : ∀ p ∈ mid, aIsSweep p.1 = true → p.2 ≤ t0 + c.defaultSpan)
+    (hts : t0 + c.defaultSpan < ts)
+    (hrest : ∀ p ∈ rest, arevives k p.1 = false) :
+    let c' := (pre ++ (.put k v, t0) :: (mid ++ (.sweep, ts) :: rest)).foldl astep c
+    c'.get k = none ∧ c'.peek k = none ∧ c'.has k = false ∧ k ∉ c'.keys := by
+  intro c'
+  have hset : alookup k (astep (pre.foldl astep c) (.put k v, t0)).data = some ⟨t0, c.defaultSpan, v⟩ := by
+    show alookup k ((pre.foldl astep c).put k v t0).data = _
+    rw [put_lookup _ k v t0 hk, arun_defaultSpan]
+  have hl : alookup k c'.data = none :=
+    api_after_set_gone c pre mid rest (.put k v, t0) ts k _ h hset hno ht hts hrest
+  have hhas : c'.has k = false := (has_eq_false_iff _ k).mpr hl
+  refine ⟨?_, ?_, hhas, ?_⟩
+  · unfold Core.get; rw [hl]; rfl
+  · unfold Core.peek Core.get; rw [hl]; rfl
+  · intro hm
+    rw [(mem_keys_iff_has c' k).mp hm] at hhas
+    cases hhas
+
+/-- `Clear` empties the cache (and keeps the default span) -/
+theorem clear_empties (c : Core) :
+    c.clear.len = 0 ∧ c.clear.keys = [] ∧ c.clear.defaultSpan = c.defaultSpan ∧
+    ∀ k, c.clear.has k = false ∧ c.clear.get k = none ∧ c.clear.peek k = none :=
+  ⟨rfl, rfl, rfl, fun _ => ⟨rfl, rfl, rfl⟩⟩
+
+/-- after `Clear` a key stays absent until the next call that can create it -/
+theorem cleared_stays_absent (c : Core) (pre rest : List (AOp × Nat)) (t : Nat) (k : Bytes)
+    (hrest : ∀ p ∈ rest, arevives k p.1 = false) :
+    ((pre ++ (.clear, t) :: rest).foldl astep c).has k = false := by
+  rw [List.foldl_append, List.foldl_cons]
+  apply (has_eq_false_iff _ k).mpr
+  exact arun_stays_absent _ k rest (by simp [astep, Core.clear, KeysNodup]) rfl hrest
+
+/-! ### TimeCache / peerTimeCache: the same lifetime statements through the API -/
+
+/-- `TimeCache.AddWithSpan(k, d)` reading `t0`: present until `t0 + d`; `TimeCache.Add` is the case `d = defaultSpan` -/
+theorem timeCache_addWithSpan_retained (c : Core) (pre post : List (AOp × Nat)) (k : Bytes) (d t0 : Nat) (hk : k ≠ [])
+    (h : KeysNodup c.data) (hno : ∀ p ∈ post, atouches k p.1 = false)
+    (ht : ∀ p ∈ post, aIsSweep p.1 = true → p.2 ≤ t0 + d) :
+    ((pre ++ (.addWithSpan k d, t0) :: post).foldl astep c).has k = true := by
+  have hset : alookup k (astep (pre.foldl astep c) (.addWithSpan k d, t0)).data = some ⟨t0, d, []⟩ :=
+    addWithSpan_lookup _ k d t0 hk
+  exact (has_eq_true_iff _ k).mpr ⟨_, api_after_set_retained c pre post _ k _ h hset hno ht⟩
+
+theorem timeCache_add_retained (c : Core) (pre post : List (AOp × Nat)) (k : Bytes) (t0 : Nat) (hk : k ≠ [])
+    (h : KeysNodup c.data) (hno : ∀ p ∈ post, atouches k p.1 = false)
+    (ht : ∀ p ∈ post, aIsSweep p.1 = true → p.2 ≤ t0 + c.defaultSpan) :
+    ((pre ++ (.add k, t0) :: post).foldl astep c).has k = true := by
+  have hset : alookup k (astep (pre.foldl astep c) (.add k, t0)).data = some ⟨t0, c.defaultSpan, []⟩ := by
+    show alookup k ((pre.foldl astep c).add k t0).data = _
+    rw [coreAdd_lookup _ k t0 hk, arun_defaultSpan]
+  exact (has_eq_true_iff _ k).mpr ⟨_, api_after_set_retained c pre post _ k _ h hset hno ht⟩
+
+/-- the span an Upsert leaves: never smaller than the existing one, never smaller than the requested one -/
+def Core.upsertSpan (c : Core) (k : Bytes) (d : Nat) : Nat :=
+  match alookup k c.data with | some e => max e.span d | none => d
+
+theorem upsertSpan_ge (c : Core) (k : Bytes) (d : Nat) :
+    d ≤ c.upsertSpan k d ∧ ∀ e, alookup k c.data = some e → e.span ≤ c.upsertSpan k d := by
+  unfold Core.upsertSpan
+  cases alookup k c.data with
+  | some e =>
+    refine ⟨by dsimp only; omega, ?_⟩
+    intro e' he'
+    cases he'
+    dsimp only; omega
+  | none => exact ⟨Nat.le_refl _, fun e he => by cases he⟩
+
+/-- `TimeCache.Upsert(k, d)` / `peerTimeCache.Upsert(pid, d)` reading `t0`: present until `t0 + max d (existing span)` -/
+theorem upsert_retained_max (c : Core) (pre post : List (AOp × Nat)) (k : Bytes) (d t0 : Nat) (hk : k ≠ [])
+    (h : KeysNodup c.data) (hno : ∀ p ∈ post, atouches k p.1 = false)
+    (ht : ∀ p ∈ post, aIsSweep p.1 = true → p.2 ≤ t0 + (pre.foldl astep c).upsertSpan k d) :
+    ((pre ++ (.upsert k d, t0) :: post).foldl astep c).has k = true := by
+  have hset := coreUpsert_lookup (pre.foldl astep c) k d t0 hk
+  refine (has_eq_true_iff _ k).mpr ⟨_, api_after_set_retained c pre post (.upsert k d, t0) k _ h hset hno ?_⟩
+  intro p hp hs
+  have := ht p hp hs
+  unfold Core.upsertSpan at this
+  cases hx : alookup k (pre.foldl astep c).data with
+  | some e => rw [hx] at this; exact this
+  | none => rw [hx] at this; exact this
+
+/-- … in particular at least until `t0 + d`, whatever the cache contained -/
+theorem upsert_retained (c : Core) (pre post : List (AOp × Nat)) (k : Bytes) (d t0 : Nat) (hk : k ≠ [])
+    (h : KeysNodup c.data) (hno : ∀ p ∈ post, atouches k p.1 = false)
+    (ht : ∀ p ∈ post, aIsSweep p.1 = true → p.2 ≤ t0 + d) :
+    ((pre ++ (.upsert k d, t0) :: post).foldl astep c).has k = true := by
+  apply upsert_retained_max c pre post k d t0 hk h hno
+  intro p hp hs
+  have := ht p hp hs
+  have := (upsertSpan_ge (pre.foldl astep c) k d).1
+  omega
+
+/-- `AddWithSpan`/`Add`/`Upsert(k, d)` on an ABSENT key (or any `AddWithSpan`): gone after a sweep reading `> t0 + d` -/
+theorem timeCache_addWithSpan_gone (c : Core) (pre mid rest : List (AOp × Nat)) (k : Bytes) (d t0 ts : Nat) (hk : k ≠ [])
+    (h : KeysNodup c.data) (hno : ∀ p ∈ mid, atouches k p.1 = false)
+    (ht : ∀ p ∈ mid, aIsSweep p.1 = true → p.2 ≤ t0 + d) (hts : t0 + d < ts)
+    (hrest : ∀ p ∈ rest, arevives k p.1 = false) :
+    ((pre ++ (.addWithSpan k d, t0) :: (mid ++ (.sweep, ts) :: rest)).foldl astep c).has k = false := by
+  have hset : alookup k (astep (pre.foldl astep c) (.addWithSpan k d, t0)).data = some ⟨t0, d, []⟩ :=
+    addWithSpan_lookup _ k d t0 hk
+  exact (has_eq_false_iff _ k).mpr (api_after_set_gone c pre mid rest _ ts k _ h hset hno ht hts hrest)
+
+/-! ### the empty key is never stored, so `Remove(nil)` (early return in Go) and `Remove([]byte{})` coincide -/
+
+def NoEmptyKey (c : Core) : Prop := alookup ([] : Bytes) c.data = none
+
+theorem lookup_filter_none (k : Bytes) (p : Bytes × Entry → Bool) (l : TC) (h : alookup k l = none) :
+    alookup k (l.filter p) = none := by
+  induction l with
+  | nil => rfl
+  | cons a r ih =>
+    obtain ⟨k1, e1⟩ := a
+    simp only [alookup] at h
+    split at h
+    · cases h
+    · rename_i hne
+      simp only [List.filter_cons]
+      split
+      · simp only [alookup, if_neg hne]; exact ih h
+      · exact ih h
+
+theorem aerase_of_lookup_none (k : Bytes) (l : TC) (h : alookup k l = none) : aerase k l = l := by
+  induction l with
+  | nil => rfl
+  | cons a r ih =>
+    obtain ⟨k1, e1⟩ := a
+    simp only [alookup] at h
+    split at h
+    · cases h
+    · rename_i hne
+      simp only [aerase, if_neg hne, ih h]
+
+theorem NoEmptyKey.new (d : Nat) : NoEmptyKey (Core.new d) := rfl
+
+theorem NoEmptyKey.astep (c : Core) (a : AOp × Nat) (h : NoEmptyKey c) : NoEmptyKey (astep c a) := by
+  obtain ⟨op, t⟩ := a
+  unfold NoEmptyKey at h ⊢
+  cases op with
+  | add k =>
+    show alookup [] (c.addWithSpan k c.defaultSpan t).data = none
+    unfold Core.addWithSpan
+    split
+    · exact h
+    · rename_i hk
+      show alookup [] (TimeCache.add c.data k [] c.defaultSpan t) = none
+      rw [lookup_add_ne c.data [] _ t (fun hc => hk hc.symm)]; exact h
+  | addWithSpan k d =>
+    show alookup [] (c.addWithSpan k d t).data = none
+    unfold Core.addWithSpan
+    split
+    · exact h
+    · rename_i hk
+      show alookup [] (TimeCache.add c.data k [] d t) = none
+      rw [lookup_add_ne c.data [] _ t (fun hc => hk hc.symm)]; exact h
+  | upsert k d =>
+    show alookup [] (c.upsert k d t).data = none
+    unfold Core.upsert
+    split
+    · exact h
+    · rename_i hk
+      show alookup [] (TimeCache.upsert c.data k [] d t) = none
+      rw [lookup_upsert_ne c.data [] _ t (fun hc => hk hc.symm)]; exact h
+  | sweep => exact lookup_filter_none [] _ c.data h
+  | put k v =>
+    show alookup [] (c.put k v t).data = none
+    unfold Core.put
+    split
+    · exact h
+    · rename_i hk
+      show alookup [] (TimeCache.add c.data k v c.defaultSpan t) = none
+      rw [lookup_add_ne c.data v _ t (fun hc => hk hc.symm)]; exact h
+  | hasOrAdd k v =>
+    show alookup [] (c.hasOrAdd k v t).1.data = none
+    unfold Core.hasOrAdd
+    split
+    · exact h
+    · rename_i hk
+      show alookup [] (TimeCache.hasOrAdd c.data k v c.defaultSpan t).1 = none
+      rw [lookup_hoa_ne c.data v _ t (fun hc => hk hc.symm)]; exact h
+  | remove k =>
+    show alookup [] (TimeCache.remove c.data k) = none
+    by_cases hk : ([] : Bytes) = k
+    · subst hk; exact lookup_remove_self c.data []
+    · rw [lookup_remove_ne c.data hk]; exact h
+  | clear => rfl
+  | has k => exact h
+  | len => exact h
+  | get k => exact h
+  | peek k => exact h
+  | keys => exact h
+
+theorem NoEmptyKey.run (ops : List (AOp × Nat)) (c : Core) (h : NoEmptyKey c) :
+    NoEmptyKey (ops.foldl TimeCache.astep c) := by
+  induction ops generalizing c with
+  | nil => exact h
+  | cons o r ih => exact ih (TimeCache.astep c o) (NoEmptyKey.astep c o h)
+
+theorem remove_empty_noop (c : Core) (h : NoEmptyKey c) : c.remove [] = c := by
+  unfold Core.remove TimeCache.remove
+  rw [aerase_of_lookup_none [] c.data h]
+
+/-! ### interval soundness for API histories (all calls of the three types, including `Clear`) -/
+
+/-- an API call with the bracket of its clock reading and the true reading -/
+structure BAOp where
+  op : AOp
+  lo : Nat
+  t : Nat
+  hi : Nat
+
+def BAOp.ok (b : BAOp) : Prop := b.lo ≤ b.t ∧ b.t ≤ b.hi
+
+instance (b : BAOp) : Decidable b.ok := by unfold BAOp.ok; exact inferInstance
+
+def BAOp.exact (b : BAOp) : AOp × Nat := (b.op, b.t)
+
+/-- interval step for an API call (`defaultSpan` is a constant of the cache): `Clear` empties both bounds, everything else goes
+    through `AOp.lower` -/
+def I.astep (defaultSpan : Nat) (i : I) (b : BAOp) : I :=
+  match b.op with
+  | .clear => ⟨[], []⟩
+  | op => match op.lower defaultSpan with
+    | some o => i.step ⟨o, b.lo, b.t, b.hi⟩
+    | none => i
+
+theorem Sandwich.astep (c : Core) (i : I) (b : BAOp) (h : Sandwich i c.data) (hb : b.ok) :
+    Sandwich (i.astep c.defaultSpan b) (TimeCache.astep c b.exact).data := by
+  obtain ⟨op, lo, t, hi⟩ := b
+  rw [astep_lower]
+  cases op <;> simp only [I.astep, BAOp.exact, AOp.lower] <;>
+    first
+    | exact Sandwich.empty
+    | exact h
+    | exact Sandwich.step i c.data ⟨_, lo, t, hi⟩ h hb
+    | (split <;> first | exact h | exact Sandwich.step i c.data ⟨_, lo, t, hi⟩ h hb)
+
+theorem api_interval_run_sound (ops : List BAOp) (c : Core) (i : I) (h : Sandwich i c.data) (hok : ∀ b ∈ ops, b.ok) :
+    Sandwich (ops.foldl (I.astep c.defaultSpan) i) ((ops.map BAOp.exact).foldl TimeCache.astep c).data := by
+  induction ops generalizing i c with
+  | nil => exact h
+  | cons b r ih =>
+    simp only [List.foldl_cons, List.map_cons]
+    have := ih (TimeCache.astep c b.exact) (i.astep c.defaultSpan b) (Sandwich.astep c i b h (hok b (List.mem_cons_self ..)))
+      (fun b' hb' => hok b' (List.mem_cons_of_mem _ hb'))
+    rw [astep_defaultSpan] at this
+    exact this
+
+/-- three-valued verdict for a `timeCacher`/`TimeCache`/`peerTimeCache` created empty, after any API history -/
+theorem api_interval_run_verdict (ops : List BAOp) (d : Nat) (hok : ∀ b ∈ ops, b.ok) (k : Bytes) :
+    (has (ops.foldl (I.astep d) ⟨[], []⟩).must k = true → ((ops.map BAOp.exact).foldl TimeCache.astep (Core.new d)).has k = true) ∧
+    (((ops.map BAOp.exact).foldl TimeCache.astep (Core.new d)).has k = true → has (ops.foldl (I.astep d) ⟨[], []⟩).may k = true) :=
+  Sandwich.verdict _ _ k (api_interval_run_sound ops (Core.new d) ⟨[], []⟩ Sandwich.empty hok)
+
+/-! ### non-vacuity / concrete readings for §4 -/
+
+section examples4
+private def c0 : Core := Core.new 10
+private def ka : Bytes := [0xaa]
+private def kb : Bytes := [0xbb]
+private def pre4 : List (AOp × Nat) := [(.put ka [1], 0), (.put kb [2], 1), (.sweep, 5)]
+/-- after Put(ka, [3]) reading 20 (default span 10 ⇒ alive until 30): queries, HasOrAdd of ka with another value, Put/Remove of kb,
+    background sweeps reading 25 and 30 -/
+private def post4 : List (AOp × Nat) :=
+  [(.get ka, 21), (.hasOrAdd ka [9], 22), (.sweep, 25), (.put kb [4], 26), (.remove kb, 27), (.keys, 28), (.len, 28), (.sweep, 30)]
+private def rest4 : List (AOp × Nat) := [(.remove ka, 40), (.put kb [5], 41), (.sweep, 2), (.peek ka, 50)]
+
+example : ((pre4 ++ (.put ka [3], 20) :: post4).foldl astep c0).get ka = some [3] :=
+  (cacher_retained c0 pre4 post4 ka [3] 20 (by decide) (by simp [c0, Core.new, KeysNodup]) (by decide) (by decide)).1
+example : ((pre4 ++ (.put ka [3], 20) :: post4).foldl astep c0).has ka = true :=
+  (cacher_retained c0 pre4 post4 ka [3] 20 (by decide) (by simp [c0, Core.new, KeysNodup]) (by decide) (by decide)).2.2.1
+-- the whole final state: only `ka` is left, stamped 20 by the latest Put (the HasOrAdd at 22 did not restart the countdown)
+example : ((pre4 ++ (.put ka [3], 20) :: post4).foldl astep c0).data = [(ka, ⟨20, 10, [3]⟩)] := by decide
+example : ((pre4 ++ (.put ka [3], 20) :: (post4 ++ (.sweep, 31) :: rest4)).foldl astep c0).get ka = none :=
+  (cacher_gone_after_expiry_sweep c0 pre4 post4 rest4 ka [3] 20 31 (by decide) (by simp [c0, Core.new, KeysNodup]) (by decide)
+    (by decide) (by decide) (by decide)).1
+example : ((pre4 ++ (.clear, 7) :: rest4).foldl astep c0).has ka = false :=
+  cleared_stays_absent c0 pre4 rest4 7 ka (by decide)
+example : ((pre4.foldl astep c0).clear).len = 0 ∧ (pre4.foldl astep c0).len = 2 := by decide
+-- Get does not check expiry: an expired entry is returned until a sweep actually runs
+example : ((Core.new 10).put ka [1] 0).get ka = some [1] ∧ (((Core.new 10).put ka [1] 0).sweep 11).get ka = none := by decide
+-- TimeCache / peerTimeCache
+private def pre4b : List (AOp × Nat) := [(.upsert ka 2, 1), (.upsert ka 7, 2)]
+private def post4b : List (AOp × Nat) := [(.sweep, 7), (.has ka, 8), (.upsert kb 3, 9), (.sweep, 10)]
+private def post4c : List (AOp × Nat) := [(.sweep, 4), (.has ka, 8)]
+private def mid4 : List (AOp × Nat) := [(.sweep, 24)]
+-- Upsert(span 1) reading 3 on an entry of span 7: span stays 7, countdown restarts ⇒ alive until 10 (a fresh Add(span 1) would give 4)
+example : (pre4b.foldl astep c0).upsertSpan ka 1 = 7 := by decide
+example : ((pre4b ++ (.upsert ka 1, 3) :: post4b).foldl astep c0).has ka = true :=
+  upsert_retained_max c0 pre4b post4b ka 1 3 (by decide) (by simp [c0, Core.new, KeysNodup]) (by decide) (by decide)
+example : ((pre4b ++ (.upsert ka 1, 3) :: post4c).foldl astep c0).has ka = true :=
+  upsert_retained c0 pre4b post4c ka 1 3 (by decide) (by simp [c0, Core.new, KeysNodup]) (by decide) (by decide)
+example : ((pre4b ++ [(AOp.upsert ka 1, 3), (AOp.sweep, 11)]).foldl astep c0).has ka = false := by decide
+example : ((pre4 ++ (AOp.addWithSpan ka 4, 20) :: (mid4 ++ (AOp.sweep, 25) :: [])).foldl astep c0).has ka = false :=
+  timeCache_addWithSpan_gone c0 pre4 mid4 [] ka 4 20 25 (by decide) (by simp [c0, Core.new, KeysNodup]) (by decide)
+    (by decide) (by decide) (by simp)
+example : ((pre4 ++ (.add ka, 20) :: post4).foldl astep c0).has ka = true :=
+  timeCache_add_retained c0 pre4 post4 ka 20 (by decide) (by simp [c0, Core.new, KeysNodup]) (by decide) (by decide)
+-- interval run through the API, with a Clear and an empty-key Put (an error in Go, no effect)
+private def bhist : List BAOp :=
+  [⟨.put ka [1], 0, 3, 5⟩, ⟨.clear, 0, 0, 0⟩, ⟨.put [] [1], 6, 6, 7⟩, ⟨.hasOrAdd ka [2], 6, 8, 9⟩, ⟨.upsert kb 4, 8, 9, 12⟩,
+   ⟨.sweep, 14, 15, 16⟩, ⟨.get ka, 0, 0, 0⟩]
+example : ∀ b ∈ bhist, b.ok := by decide
+example : has (bhist.foldl (I.astep 10) ⟨[], []⟩).must ka = true ∧ has (bhist.foldl (I.astep 10) ⟨[], []⟩).must kb = false ∧
+    has (bhist.foldl (I.astep 10) ⟨[], []⟩).may kb = true := by decide
+example : ((bhist.map BAOp.exact).foldl astep (Core.new 10)).has ka = true :=
+  (api_interval_run_verdict bhist 10 (by decide) ka).1 (by decide)
+example : NoEmptyKey ((pre4 ++ (.put [] [1], 3) :: post4).foldl astep c0) := NoEmptyKey.run _ _ (NoEmptyKey.new 10)
+end examples4
+
 end SV.TimeCache
